@@ -2,7 +2,7 @@
 import copy
 import random
 
-from harness import core, engine_explainer as E, gen_explainer as G
+from harness import core, engine_explainer as E, gen_explainer as G, engine_batch as EB, gen_batch as GB
 from checks import _explainer as X
 
 PID = "C17"
@@ -40,6 +40,25 @@ def fault_scenarios(rng, nbase, quick, pairs=False):
     return out
 
 
+def batch_fault_scenarios(rng, nbase, quick):
+    """BatchSage / IntervalSage: every (call, callback) position of short scenarios as an injected fault"""
+    out = []
+    for i in range(nbase):
+        sc = EB.random_batch(rng, quick) if i % 2 == 0 else EB.random_interval(rng, quick)
+        sc.rows = sc.rows[:4]
+        sc.calls = sc.calls[:4]
+        dry = GB.run(sc)
+        positions = [(ci, k) for ci, c in enumerate(dry["calls"]) for k in range(1, c["nmodel"] + c["nloss"] + 1 + 8)]
+        positions = [p for p in positions if p[1] <= 60]
+        if len(positions) > (12 if quick else 40):
+            positions = rng.sample(positions, 12 if quick else 40)
+        for (ci, k) in positions:
+            s2 = copy.copy(sc)
+            s2.fault = (ci, k)
+            out.append(s2)
+    return out
+
+
 def run(tier, seed):
     ctx = core.Ctx(PID, tier, seed)
     quick = tier == "quick"
@@ -66,8 +85,17 @@ def run(tier, seed):
     ex = next((t for t in traces if any(c["fault"] for c in t["calls"])), traces[0])
     ctx.sample({"direction": "B", "scenario": ex["key"],
                 "faulted_call": next(({k: c[k] for k in ("fault", "outcome", "order", "pre", "post")} for c in ex["calls"] if c["fault"]), None)})
-    ctx.assume("the explainers of BatchSage / IntervalSage assign importance_values once at the end of explain_many; "
-               "their fault atomicity is checked in C05's engine")
+    bscs = batch_fault_scenarios(rng, 10 if quick else 80, quick)
+    btr, bfails = EB.validate(ctx, bscs, lambda clause: clause.startswith("fault."), "BatchSage / IntervalSage with an injected fault at an "
+                              "enumerated (call, callback) position")
+    nbf = sum(1 for t in btr for c in t["calls"] if c["outcome"] == "exc")
+    ctx.count_clause("trace.fault.atomic(batch)", nbf)
+    for t, sc in zip(btr, bscs):
+        for i, c in enumerate(t["calls"]):
+            if c["fault"] and c["outcome"] == "ret" and c["nmodel"] + c["nloss"] >= c["fault"]:
+                ctx.violation("trace.fault.propagates", "%s/%s" % (sc.cls, sc.mode), "callback #%d of call %d raised but the call returned normally"
+                              % (c["fault"], i + 1), {"batch_scenario": sc.to_json(), "call": i + 1})
+    ctx.add_stage("fault points injected into BatchSage / IntervalSage", "fault_enumeration", fault_points=nbf, runs=len(bscs))
     ctx.assume("whether a failed call counts as a seen sample is left open (the property speaks about the estimates)")
     return ctx.finish(level="model_checking")
 
